@@ -36,7 +36,9 @@ import (
 	"math"
 	"os"
 	"path/filepath"
+	"runtime"
 	"sort"
+	"strconv"
 	"strings"
 	"sync"
 	"sync/atomic"
@@ -953,6 +955,22 @@ type c06Gate struct {
 	relBelow uint64 // goroutines whose epoch is below this may pass
 	arrived  int
 	passed   int
+	sync     int          // notifications delivered synchronously on the applying goroutine (never held)
+	applyGID atomic.Uint64 // goroutine that is applying operations to the gated server
+}
+
+// c06GoID returns the id of the calling goroutine (parsed from the stack
+// header; used only to tell a notification that is delivered synchronously by
+// the applying goroutine - which must never be held - from an asynchronous one).
+func c06GoID() uint64 {
+	var b [64]byte
+	n := runtime.Stack(b[:], false)
+	f := strings.Fields(string(b[:n]))
+	if len(f) < 2 {
+		return 0
+	}
+	id, _ := strconv.ParseUint(f[1], 10, 64)
+	return id
 }
 
 var (
@@ -976,6 +994,14 @@ func c06InstallGateHook() {
 			g.mu.Lock()
 			g.arrived++
 			g.cond.Broadcast()
+			if gid := c06GoID(); gid != 0 && gid == g.applyGID.Load() {
+				// delivered inline by the applying goroutine: there is no late schedule to explore
+				g.sync++
+				g.passed++
+				g.cond.Broadcast()
+				g.mu.Unlock()
+				return nil
+			}
 			for epoch >= g.relBelow {
 				g.cond.Wait()
 			}
@@ -991,6 +1017,7 @@ func c06NewGate(s *Server) *c06Gate {
 	c06InstallGateHook()
 	g := &c06Gate{}
 	g.cond = sync.NewCond(&g.mu)
+	g.applyGID.Store(c06GoID())
 	c06Gates.Store(s.config.Clustering.ServerID, g)
 	return g
 }
@@ -1360,9 +1387,7 @@ func c06RunHistory(rep *kit.Report, id int, seed uint64) {
 			return
 		}
 		if pendingC {
-			if gateC.release(C, op.Index, expectC) {
-				rep.Count("late_notifications_scheduled", 1)
-			} else {
+			if !gateC.release(C, op.Index, expectC) {
 				rep.Inconc(fmt.Sprintf("history %d: the asynchronous stream-deleted notification expected after %s never started (late schedule not exercised)", id, h.ops[len(h.ops)-2].Desc))
 				expectC = 0
 			}
@@ -1392,6 +1417,10 @@ func c06RunHistory(rep *kit.Report, id int, seed uint64) {
 	}
 	gateC.release(C, math.MaxUint64, expectC)
 	c06Quiesce(C)
+	gateC.mu.Lock()
+	rep.Count("notifications_delivered_synchronously", int64(gateC.sync))
+	rep.Count("notifications_asynchronous_held_one_op_late", int64(gateC.arrived-gateC.sync))
+	gateC.mu.Unlock()
 	if diffs := c06Compare(digests[n], c06DigestOf(C)); len(diffs) > 0 {
 		for _, d := range diffs {
 			h.violation("C06:determinism:late-stream-deleted:"+d.Class,
